@@ -162,6 +162,13 @@ def check_case(case) -> Result:
     got = pt.add_mods(pt.strip_mods(s), mods)
     if got != s:
         r.fail('add_mods(strip_mods(s), get_mods(s)) == s', 'C20/get-add-roundtrip', s=s, got=got)
+    # ... also from the string as it was written (s is its canonical re-serialization): the rebuilt string denotes the same peptide
+    try:
+        rebuilt = pt.add_mods(pt.strip_mods(s0), pt.get_mods(s0))
+        if not (pt.parse(rebuilt) == pt.parse(s0)):
+            r.fail('add_mods(strip_mods(s), get_mods(s)) denotes the original peptide', 'C20/get-add-roundtrip/written-string', s=s0, got=rebuilt)
+    except ValueError as e:
+        r.fail('add_mods(strip_mods(s), get_mods(s)) denotes the original peptide', 'C20/get-add-roundtrip/written-string', s=s0, error=str(e)[:100])
     seq, mods2 = pt.pop_mods(s)
     if seq != p['seq']:
         r.fail('pop_mods returns the residues', 'C20/pop-mods-sequence', s=s, got=seq)
@@ -279,7 +286,14 @@ def strategy():
     twins = gen.pep_model(alphabet='ACDEGKMST', min_len=3, max_len=10, allow_empty=False, mod_strategy=twin,
                           mod_list=st.lists(twin, min_size=2, max_size=3, unique_by=lambda m: (m[0], m[1])),
                           kinds=('internal', 'intervals', 'nterm', 'cterm', 'unknown', 'labile'))
-    return st.fixed_dictionaries({'pep': st.one_of(pm, rich, twins), 'pick': st.lists(st.integers(0, 60), min_size=4, max_size=4),
+    def zero_charge(p):
+        # a charge state of 0 is a value, not "no charge" ('/0' parses to charge 0)
+        q = dict(p)
+        if q.get('charge') is not None:
+            q['charge'] = 0
+        return q
+    pm_zero = gen.pep_model(max_len=12, allow_empty=False).map(zero_charge)
+    return st.fixed_dictionaries({'pep': st.one_of(pm, pm, rich, rich, twins, twins, pm_zero), 'pick': st.lists(st.integers(0, 60), min_size=4, max_size=4),
                                   'all': st.booleans()})
 
 
